@@ -293,9 +293,110 @@ def model_inputs(rng, n, tier):
     return out
 
 
+def mp_ext(ty, payload, rng):
+    """an ext item in one of the forms that can carry `payload` (fixext where the size allows, ext8/16/32)"""
+    n = len(payload)
+    forms = []
+    fix = {1: 0xd4, 2: 0xd5, 4: 0xd6, 8: 0xd7, 16: 0xd8}
+    if n in fix:
+        forms.append(bytes([fix[n], ty]))
+    if n < 256:
+        forms.append(bytes([0xc7, n, ty]))
+    if n < 65536:
+        forms.append(b"\xc8" + n.to_bytes(2, "big") + bytes([ty]))
+    forms.append(b"\xc9" + n.to_bytes(4, "big") + bytes([ty]))
+    return rng.choice(forms) + payload
+
+
+def mp_timestamp(rng):
+    """ext type -1 in the 32 / 64 / 96 bit layouts, nanoseconds also beyond 999999999, seconds of both signs"""
+    k = rng.choice([4, 8, 12])
+    nsec = rng.choice([0, 1, 999999999, 1000000000, 2 ** 30 - 1, rng.getrandbits(30)])
+    if k == 4:
+        p = rng.choice([0, 1, 2 ** 31, 2 ** 32 - 1, rng.getrandbits(32)]).to_bytes(4, "big")
+    elif k == 8:
+        sec = rng.choice([0, 1, 2 ** 32, 2 ** 34 - 1, rng.getrandbits(34)])
+        p = ((nsec << 34) | sec).to_bytes(8, "big")
+    else:
+        nsec = rng.choice([nsec, 2 ** 32 - 1, rng.getrandbits(32)])
+        sec = rng.choice([0, 1, -1, -2 ** 63, 2 ** 63 - 1, -1363896240, rng.getrandbits(64) - 2 ** 63])
+        p = nsec.to_bytes(4, "big") + sec.to_bytes(8, "big", signed=True)
+    return mp_ext(0xff, p, rng)
+
+
+def mp_model_inputs(rng, n, tier):
+    """inputs for the msgpack_parser model beyond `fmt_inputs("msgpack")`: ext items of every form and type (timestamps in the three
+    layouts, type -1 with other payload sizes, other types with payload sizes 4 / 8 / 12), maps whose keys are not strings (integers,
+    booleans, nil, bin, ext, timestamps, floats, containers), nesting at and around the depth limit (also under small max_nesting_depth
+    options), every width at its boundary values, 0xc1, prefixes of everything"""
+    out = []
+    enc = binfmt.mp_encode
+    for _ in range(n):
+        v = clean_for("msgpack", gen_value(rng, rng.randint(0, 3), "msgpack"))
+        b = enc(v, rng, minimal=rng.random() < 0.3)
+        r = rng.random()
+        if r < 0.4:
+            out.append(("-", binfmt.mutate_bytes(rng, b, (0x00, 0x7f, 0x80, 0x8f, 0x90, 0x9f, 0xa0, 0xbf, 0xc0, 0xc1, 0xc7, 0xd4, 0xd6, 0xd7, 0xd8, 0xd9, 0xdc, 0xdf, 0xe0, 0xff))))
+        elif r < 0.5:
+            out.append(("-", b[:rng.randrange(len(b) + 1)]))
+        if rng.random() < 0.25:
+            out.append(("d%d" % rng.randint(0, 4), b))
+    exts = []
+    for _ in range(n // 3):
+        ty = rng.choice([0, 1, 5, 0x7f, 0x80, 0xfe, 0xff, 0xff, rng.randrange(256)])
+        ln = rng.choice([0, 1, 2, 3, 4, 5, 8, 9, 12, 13, 16, 17, 255, 256])
+        exts.append(mp_ext(ty, bytes(rng.randrange(256) for _ in range(ln)), rng))
+        exts.append(mp_timestamp(rng))
+    for e in exts:
+        out.append(("-", e))
+        r = rng.random()
+        if r < 0.2:
+            out.append(("-", e[:rng.randrange(len(e) + 1)]))
+        elif r < 0.3:
+            out.append(("-", binfmt.mutate_bytes(rng, e, (0xff, 0x04, 0x08, 0x0c, 0xd6, 0xd7, 0xc7))))
+        elif r < 0.4:
+            out.append(("-", b"\x92" + e + rng.choice(exts)))
+    for e in exts[:6]:
+        out += [("-", e[:i]) for i in range(len(e))]
+    scal = lambda: rng.choice([enc(x, rng, False) for x in (0, 1, 127, 128, 255, 65536, 2 ** 64 - 1, -1, -32, -33, -2 ** 63, True, False, None, ("b", b""), ("b", b"\x00"),
+                                                           ("b", b"\xfb\xff"), ("b", b"abc"), b"a", b"", b"\xc3\xa9", ("f32", 0x3fc00000), ("d", 0x3ff8000000000000), [], [1], Obj([]))]
+                              + [rng.choice(exts), mp_timestamp(rng), enc(("b", bytes(rng.randrange(256) for _ in range(rng.randint(0, 7)))), rng, False)])
+    for _ in range(n // 4):
+        k = rng.randint(0, 4)
+        body = b"".join(scal() + enc(clean_for("msgpack", gen_value(rng, rng.randint(0, 1), "msgpack")), rng, False) for _ in range(k))
+        m = rng.choice([bytes([0x80 + k]), b"\xde" + k.to_bytes(2, "big"), b"\xdf" + k.to_bytes(4, "big")]) + body
+        out.append(("-", m))
+        if rng.random() < 0.3:
+            out.append(("-", binfmt.mutate_bytes(rng, m)))
+        if rng.random() < 0.2:
+            out.append(("-", b"\x91" + m))
+    for d in range(0, 8):
+        for lim in ("-", "d0", "d1", "d2", "d3", "d7", "d8"):
+            out.append((lim, b"\x91" * d + b"\x00"))
+            out.append((lim, b"\xdc\x00\x01" * d + b"\xc0"))
+            out.append((lim, b"\x81\xa1\x61" * d + b"\x01"))
+            out.append((lim, b"\xdf\x00\x00\x00\x01\xa0" * d + b"\x90"))
+            out.append((lim, b"\x91" * d + b"\xdc"))           # the depth check comes before the length is read
+    for depth in (1023, 1024, 1025):
+        out.append(("-", b"\x91" * depth + b"\x00"))
+        out.append(("-", b"\x81\xa0" * depth + b"\xc0"))
+        out.append(("-", b"\x91" * depth))
+    for s in (b"\xc1", b"\x91\xc1", b"\x81\xc1\x00", b"\x81\xa0\xc1", b"\xcc\xff", b"\xcd\xff\xff", b"\xce" + b"\xff" * 4, b"\xcf" + b"\xff" * 8, b"\xd0\x80", b"\xd0\x7f",
+              b"\xd1\x80\x00", b"\xd1\x7f\xff", b"\xd2\x80\x00\x00\x00", b"\xd2\x7f\xff\xff\xff", b"\xd3\x80" + b"\x00" * 7, b"\xd3\x7f" + b"\xff" * 7, b"\xd3" + b"\xff" * 8,
+              b"\xe0", b"\xff", b"\x7f", b"\xa2\xc3\xa9", b"\xa1\xff", b"\xd9\x02\xc3\x28", b"\xda\x00\x01\x80", b"\xdb\x00\x00\x00\x04\xf0\x9f\x98\x80", b"\xa3\xed\xa0\x80",
+              b"\xdb\xff\xff\xff\xff\x61", b"\xc6\xff\xff\xff\xff\x61", b"\xc9\xff\xff\xff\xff\x01\x61", b"\xdd\xff\xff\xff\xff\x00", b"\xdf\xff\xff\xff\xff\xa0\x00",
+              b"\xd6\xff\x00\x00\x00\x01", b"\xd7\xff" + b"\xff" * 8, b"\xd7\xff\xee\x6b\x28\x00\x00\x00\x00\x00", b"\xc7\x0c\xff" + b"\xff" * 12, b"\xc7\x0c\xff\x3b\x9a\xca\x00" + b"\x80" + b"\x00" * 7,
+              b"\xc7\x0c\xff\x00\x00\x00\x00" + b"\xff" * 8, b"\xc8\x00\x04\xff\x00\x00\x00\x02", b"\xc9\x00\x00\x00\x08\xff" + b"\x01" * 8, b"\xd4\xff\x00", b"\xd8\xff" + b"\x00" * 16,
+              b"\xc7\x00\xff", b"\xc7\x04\x01\x00\x00\x00\x01", b"\x81\xd6\xff\x00\x00\x00\x07\x01", b"\x81\xd7\xff\x00\x00\x00\x04\x00\x00\x00\x07\x01",
+              b"\x82\x01\x02\xa1\x31\x03", b"\x82\xc4\x01\x61\x01\xd4\x05\x61\x02"):
+        out.append(("-", s))
+        out += [("-", s[:i]) for i in range(len(s))]
+    return out
+
+
 def model_line(line):
     t = line.split()
-    return "bin mdec cbor %s %s" % (t[4], t[5])
+    return "bin mdec %s %s %s" % (t[2], t[4], t[5])
 
 
 def model_tie(stats):
@@ -323,7 +424,52 @@ def model_tie(stats):
     return compare
 
 
+def mp_timestamp_lines():
+    """MessagePack timestamp 64 (fixext8, type -1: nsec in the upper 30 bits) and timestamp 96 (ext8 of 12 bytes: nsec, then int64 seconds) with the
+    nanoseconds on both sides of the specification's limit ("nanoseconds must not be larger than 999999999")"""
+    ls = []
+    for nsec in (0, 1, 999999998, 999999999, 1000000000, 1000000001, 2 ** 30 - 1):
+        for sec in (0, 1, 2 ** 34 - 1):
+            ls.append(dec_line("msgpack", "j", bytes([0xd7, 0xff]) + ((nsec << 34) | sec).to_bytes(8, "big")))
+    for nsec in (0, 999999999, 1000000000, 2 ** 31, 2 ** 32 - 1):
+        for sec in (0, -1, 2 ** 40, -2 ** 63):
+            ls.append(dec_line("msgpack", "j", bytes([0xc7, 0x0c, 0xff]) + nsec.to_bytes(4, "big") + (sec % 2 ** 64).to_bytes(8, "big")))
+    return ls
+
+
+def mp_timestamp_nsec(line):
+    b = bytes.fromhex(line.split()[-1][1:])
+    if b[:2] == bytes([0xd7, 0xff]) and len(b) == 10:
+        return int.from_bytes(b[2:], "big") >> 34
+    if b[:3] == bytes([0xc7, 0x0c, 0xff]) and len(b) == 15:
+        return int.from_bytes(b[3:7], "big")
+    return None
+
+
+def mp_timestamp_oracle(line, impl, model, ref=None):
+    nsec = mp_timestamp_nsec(line)
+    if nsec is None:
+        return None
+    if nsec > 999999999 and impl.startswith("ok"):
+        return "a MessagePack timestamp with %d nanoseconds (> 999999999, ill-formed by the specification) was accepted: %s" % (nsec, impl[:80])
+    if nsec <= 999999999 and not impl.startswith("ok"):
+        return "a well-formed MessagePack timestamp was refused: " + impl[:80]
+    return None
+
+
+@vlib.known_matcher("D90")
+def _match_d90(stream, line, impl, model):
+    """timestamp 64 / 96 with nanoseconds above 999999999, accepted"""
+    t = line.split()
+    if t[:3] != ["bin", "dec", "msgpack"]:
+        return False
+    nsec = mp_timestamp_nsec(line)
+    return nsec is not None and nsec > 999999999 and impl.startswith("ok")
+
+
 def streams(ctx, rng, scale):
+    lt = mp_timestamp_lines()
+    ctx.correspond("msgpack-timestamp-range", HARNESS, lt, mp_timestamp_oracle, nontrivial, want_model=False)
     lw = vlib.witness_lines(PROP)
     ctx.correspond("finding-witnesses", HARNESS, lw, oracle, nontrivial, ref_lines=with_ref(lw), want_model=False)
     lc = [dec_line("cbor", "j" if rng.random() < 0.7 else "o", b) for b in cbor_inputs(rng, 2500 * scale, ctx.tier)]
@@ -340,19 +486,30 @@ def streams(ctx, rng, scale):
     # Lean widening f16ToF64 (Props.C07.half_sign_symmetric / half_normal), plus encode_half back to the same pattern
     lhv = ["bin half %04x" % h for h in range(0, 65536, 1 if ctx.tier == "thorough" else 3)] + ["bin half %04x" % h for h in (0x8000, 0x8001, 0x83ff, 0x8400, 0xfbff, 0xfc00, 0x7c00, 0x7e00)]
     ctx.correspond("float16-values", HARNESS, lhv, lambda line, impl, model, ref=None: None, lambda l, i: l, model_lines=lhv)
+    kept = {}
     for fmt in ("msgpack", "ubjson", "bson"):
         fo = "m4096" if fmt == "ubjson" else "-"       # keep hostile counts from building 16M-element arrays in the harness
         lf = [dec_line(fmt, "j" if rng.random() < 0.7 else "o", b, fo) for b in fmt_inputs(fmt, rng, 1500 * scale, ctx.tier)]
         ctx.correspond(fmt + "-generated", HARNESS, lf, oracle, nontrivial, ref_lines=with_ref(lf), want_model=False)
+        kept[fmt] = list(lf)
         if fmt != "bson":
             lx = [dec_line(fmt, "j", b, "m4096" if fmt == "ubjson" else "-") for b in cbor_exhaustive(2 if ctx.tier == "quick" else 3, rng, 100000)]
             ctx.correspond(fmt + "-exhaustive-short", HARNESS, lx, oracle, nontrivial, ref_lines=with_ref(lx), want_model=False)
+            kept[fmt] += lx
     # the cbor_parser MODEL (JV.Model.CborParser: read_item / read_uint64 / read_int64 / iterate_string_chunks / the parse_mode stack /
     # the key-rendering adaptor) against the real decoder, on the inputs judged above and on tag-free inputs of its own
     lm = lc + le + ["bin dec cbor %s %s x%s" % ("j" if rng.random() < 0.7 else "o", o, b.hex()) for o, b in model_inputs(rng, 1500 * scale, ctx.tier)]
     stats = {"skip": 0, "tied": 0, "errors": 0}
     st = ctx.correspond("cbor-decoder-model", HARNESS, lm, None, nontrivial, compare=model_tie(stats), model_lines=[model_line(l) for l in lm])
     st.update({"model_answered": stats["tied"], "model_answered_error": stats["errors"], "outside_fragment": stats["skip"]})
+    # the msgpack_parser MODEL (JV.Model.MsgpackParser: the read_item type-byte dispatch / get_size / ext and timestamps / the parse_mode
+    # stack / the key-rendering adaptor) against the real decoder, on the MessagePack inputs judged above and on inputs of its own
+    # (a separate PRNG stream, so that the streams above see the same inputs as before)
+    rng2 = vlib.rng_for(ctx.seed * 7919 + scale, "c07-msgpack-model")
+    lp = kept["msgpack"] + ["bin dec msgpack %s %s x%s" % ("j" if rng2.random() < 0.7 else "o", o, b.hex()) for o, b in mp_model_inputs(rng2, 1500 * scale, ctx.tier)]
+    stats2 = {"skip": 0, "tied": 0, "errors": 0}
+    st2 = ctx.correspond("msgpack-decoder-model", HARNESS, lp, None, nontrivial, compare=model_tie(stats2), model_lines=[model_line(l) for l in lp])
+    st2.update({"model_answered": stats2["tied"], "model_answered_error": stats2["errors"], "outside_fragment": stats2["skip"]})
 
 
 def run(ctx):
